@@ -170,7 +170,8 @@ struct FaultCfg {
 	double p_rd_newid = 0, p_rd_recase = 0, p_rd_altsrc = 0, p_rd_retype = 0, p_rd_altport = 0;
 	uint64_t rd_max_delay = 0;
 	uint64_t max_delay = 0;
-	bool enabled() const { return t1 > t0; }
+	uint64_t dr0 = 0, dr1 = 0; int dr_host = -1;   // drought: every datagram sent by host dr_host in [dr0, dr1) is lost
+	bool enabled() const { return t1 > t0 || dr1 > dr0; }
 };
 
 struct Event {
